@@ -14,9 +14,10 @@
      KOther      anything else (regular file, symlink, device, fifo, socket)
 
    [resolve_link] takes [mh : option N]:
-     Some m   the REPAIRED code (props/C07/fixes/F11-hardlink-cycle.patch): the walk gives up with
-              EMLINK once it has followed m links
-     None     the code as it is in the unpatched tree (no bound; only "node == start" is tested)
+     Some m   the code as it is now (fix F11, props/C07/fixes/F11-hardlink-cycle.patch, is in /repo):
+              the walk gives up with EMLINK once it has followed m links
+     None     the code as it was before F11 (no bound; only "node == start" is tested); kept for
+              hardlink_cycle_refuted
    Definitions only; proofs are in HardLinkProofs.v. *)
 From Coq Require Import List NArith Bool.
 From SqfsV Require Import C07.Res C07.GenC07 C18.CanonModel.
